@@ -13,7 +13,7 @@ def run(ctx):
     T = ctx.thorough
     cfg = ("SPECIFICATION Spec\nINVARIANT IntervalOK\nINVARIANT AtMost2nValues\nINVARIANT Saturates\nINVARIANT EndCodes\nCHECK_DEADLOCK FALSE\n"
            "CONSTANTS MaxLen = %d\n MaxVal = 4\n Ps = {10,20,30,40,50,60,70,80,90}\n Ns = {1,2,3}\n" % (7 if T else 6))
-    ctx.tlc("QuantiserModel", cfg, note="every sorted data set with ties, every p, n", timeout=3000)
+    ctx.tlc("QuantiserModel", cfg, note="every sorted data set with ties, every p, n", timeout=3000, actions=["PickInterval", "Quantise"])
     ctx.exhaustive = True
     import_repo()
     from opticomlib.utils import shortest_int
